@@ -706,6 +706,72 @@ func histStep(g *algz.Graph[int], lg *ledger, t []string) string {
 			g.AddEdge(a, b)
 		}
 		return "ok"
+	case (t[0] == "cnode") && len(t) == 2:
+		// the same graph through a by-value copy of the struct: the copy shares the exported Nodes map
+		v, ok := num(1)
+		if !ok {
+			return "bad-op"
+		}
+		if g.Nodes == nil {
+			g.AddNode(v) // a copy of the zero value has its own map: nothing shared yet
+			return "ok"
+		}
+		h := *g
+		h.AddNode(v)
+		return "ok"
+	case (t[0] == "cund" || t[0] == "carc") && len(t) == 3:
+		a, ok1 := num(1)
+		b, ok2 := num(2)
+		if !ok1 || !ok2 || a == b {
+			return "bad-op"
+		}
+		if g.Nodes == nil {
+			g.Init(0)
+		}
+		if t[0] == "cund" {
+			func(h algz.Graph[int]) { h.AddUndirectedEdge(a, b) }(*g) // a helper taking the Graph by value
+		} else {
+			h := *g
+			h.AddEdge(a, b)
+		}
+		return "ok"
+	case t[0] == "mnode" && len(t) == 2:
+		// direct writes to the exported map
+		v, ok := num(1)
+		if !ok {
+			return "bad-op"
+		}
+		if g.Nodes == nil {
+			g.Nodes = map[int]map[int]struct{}{}
+		}
+		if _, in := g.Nodes[v]; !in {
+			g.Nodes[v] = map[int]struct{}{}
+		}
+		return "ok"
+	case t[0] == "marc" && len(t) == 3:
+		a, ok1 := num(1)
+		b, ok2 := num(2)
+		if !ok1 || !ok2 || a == b {
+			return "bad-op"
+		}
+		if g.Nodes == nil {
+			g.Nodes = map[int]map[int]struct{}{}
+		}
+		if g.Nodes[a] == nil {
+			g.Nodes[a] = map[int]struct{}{}
+		}
+		g.Nodes[a][b] = struct{}{}
+		return "ok"
+	case t[0] == "mdel" && len(t) == 2:
+		v, ok := num(1)
+		if !ok {
+			return "bad-op"
+		}
+		delete(g.Nodes, v)
+		for _, ns := range g.Nodes {
+			delete(ns, v)
+		}
+		return "ok"
 	case t[0] == "len" && len(t) == 1:
 		return strconv.Itoa(g.Len())
 	case t[0] == "paths" && len(t) == 1:
